@@ -203,3 +203,48 @@ func VerifC18NoDoubleCommit() {
 	}
 	sym.Reached("end")
 }
+
+// C18 (d), delayed prewrite: a transaction takes its start timestamp, another
+// one writes the same key and commits, possibly a third one prewrites and is
+// rolled back (its rollback marker becomes the newest record), and only then
+// the first transaction's prewrite arrives. It overlaps the committed writer and
+// must not commit.
+func VerifC18LatePrewrite() {
+	w := c17NewWorld()
+	defer NoKV.VerifCloseModelDB(w.db)
+	key := sym.Int("key", 0, 1)
+	mk := func(id int) *c17Txn {
+		return &c17Txn{id: id, muts: []c17Mut{{key: key, op: pb.Mutation_Put, value: []byte{byte('0' + id)}}}, ttl: 20}
+	}
+	t1, t2, t3 := mk(1), mk(2), mk(3)
+	t1Start := w.tso("s1") // T1 begins (timestamp taken), its prewrite is delayed
+	w.prewrite(t2)
+	sym.Assert(!t2.done, "t2-prewrite-ok")
+	sym.Assert(w.commit(t2, false) == nil, "t2-commit-ok")
+	switch sym.Int("third", 0, 2) {
+	case 1: // a third writer is rolled back: its marker is now the newest write record
+		w.prewrite(t3)
+		if !t3.done {
+			sym.Assert(w.rollback(t3, sym.Int("via_resolve", 0, 1) == 1) == nil, "t3-rollback-ok")
+		}
+	case 2: // a third writer commits as well
+		w.prewrite(t3)
+		if !t3.done {
+			sym.Assert(w.commit(t3, false) == nil, "t3-commit-ok")
+		}
+	}
+	// T1's delayed prewrite with its old start timestamp
+	t1.start = t1Start
+	t1.prewrote = true
+	req := &pb.PrewriteRequest{PrimaryLock: c17Keys[key], StartVersion: t1.start, LockTtl: t1.ttl,
+		Mutations: []*pb.Mutation{{Op: pb.Mutation_Put, Key: c17Keys[key], Value: t1.muts[0].value}}}
+	resp := w.apply(&pb.Request{CmdType: pb.CmdType_CMD_PREWRITE, Cmd: &pb.Request_Prewrite{Prewrite: req}})
+	accepted := len(resp.GetPrewrite().GetErrors()) == 0
+	sym.Assert(!accepted, "prewrite-behind-a-later-commit-is-refused")
+	if accepted {
+		t1.commit = w.tso("c1")
+		cr := w.apply(&pb.Request{CmdType: pb.CmdType_CMD_COMMIT, Cmd: &pb.Request_Commit{Commit: &pb.CommitRequest{StartVersion: t1.start, CommitVersion: t1.commit, Keys: t1.keys()}}})
+		sym.Assert(cr.GetCommit().GetError() != nil, "overlapping-writers-never-both-commit")
+	}
+	sym.Reached("end")
+}
